@@ -266,6 +266,14 @@ def pipeline(job, trace_props=None, tag=""):
             cmd += [a_gb, b_gb]
             rc, text, dt = run(cmd, 600, mem_gb=job.mem_gb)
             log.write("$ %s\n%s\n" % (" ".join(cmd), text))
+            if (rc != 0 or not os.path.exists(b_gb)) and job.loops and not degraded and "--loop-contracts-file" in cmd:
+                # the loop contracts could not be applied to the (changed) code: bounded search for counterexamples instead
+                degraded = "loop contracts could not be applied: " + text[-200:].replace("\n", " ")
+                info["degraded"] = degraded
+                i = cmd.index("--loop-contracts-file")
+                cmd2 = cmd[:i] + cmd[i + 3:]
+                rc, text, dt = run(cmd2, 600, mem_gb=job.mem_gb)
+                log.write("$ %s\n%s\n" % (" ".join(cmd2), text))
             if rc != 0 or not os.path.exists(b_gb):
                 raise Undecided("goto-instrument failed: " + text[-800:])
             info["stages"]["goto-instrument"] = round(dt, 2)
